@@ -43,6 +43,18 @@ FAULTS = [
     lambda o: ['fn', 'IFERROR', [['miss', 'ref', 'ZZGONE!B2:C3'], ['c', V.N(4)]]],
     lambda o: ['miss', 'ref', "'[ZZZ.XLSX]S1'!A1"],
 ]
+# workbooks whose files use numeric link ids (one seed in three): link 1 of every book is
+# a file that cannot be read, the other books follow - a reference through link 1 is
+# unresolved, references through the other links must not be disturbed by it
+NUMERIC_FAULTS = [
+    lambda o: ['op', '+', ['miss', 'ref', '[1]S1!A1'], ['c', V.N(1)]],
+    lambda o: ['fn', 'IFERROR', [['miss', 'ref', '[1]S1!B2'], o]],
+    lambda o: ['fn', 'ISERROR', [['miss', 'ref', '[1]S1!C3']]],
+]
+
+
+def numeric(s):
+    return s % 3 == 0
 
 
 def fix_num(e):
@@ -59,7 +71,8 @@ def variants(s):
     rnd = random.Random(s * 41 + 3)
     forms = [i for i in g0.order if g0.cells[i]['k'] == 'f']
     sites = rnd.sample(forms, min(len(forms), rnd.randint(1, 3)))
-    faults = {i: fix_num(rnd.choice(FAULTS)(g0.cells[i]['e'])) for i in sites}
+    faults = {i: fix_num(rnd.choice(FAULTS + (NUMERIC_FAULTS * 3 if numeric(s) else []))(g0.cells[i]['e']))
+              for i in sites}
     out = []
     for k in range(len(sites) + 1):
         for sub in itertools.combinations(sites, k):
@@ -80,7 +93,7 @@ def _work(item):
     try:
         with open(os.path.join(d, 'BAD.XLSX'), 'w') as fh:
             fh.write('this is not a workbook')
-        m = R.build_files(g, d)
+        m = R.build_files(g, d, links='numeric' if numeric(s) else None)
         _verif.drain()
         sol = m.calculate()
         evs = _verif.drain()
